@@ -80,6 +80,13 @@ pub struct WireTalk {
     /// the session that has to go is peer 2's
     #[serde(default)]
     pub crowded: bool,
+    /// the session with the first requester was re-keyed before the requests arrive (the peer restarted
+    /// and challenged a request of V's): V still remembers the previous keys
+    #[serde(default)]
+    pub rekeyed: bool,
+    /// while the requests are held a request of V's own to the first requester is lost and times out
+    #[serde(default)]
+    pub own_request_times_out: bool,
 }
 
 async fn run_wire(wt: &WireTalk, rep: &mut CaseReport) -> Option<(String, String)> {
@@ -131,6 +138,21 @@ async fn run_wire(wt: &WireTalk, rep: &mut CaseReport) -> Option<(String, String
         }
         rep.class("wire-companion/session-cache-of-two-with-three-peers");
     }
+    if wt.rekeyed && !wt.crowded {
+        act(&mut w, &Op::Submit { from: 1, to: 0, body: Body::Ping, with_record: true });
+        w.settle().await;
+        w.step += 1;
+        deliver_all(&mut w).await;
+        w.restart(1).await;
+        w.settle().await;
+        w.step += 1;
+        // V talks to the restarted peer first: the peer challenges V, whose session is re-keyed in place
+        act(&mut w, &Op::Submit { from: 0, to: 1, body: Body::Ping, with_record: true });
+        w.settle().await;
+        w.step += 1;
+        deliver_all(&mut w).await;
+        rep.class("wire-companion/requester-restarted-and-challenged-V(session re-keyed in place)");
+    }
     let talkers = if wt.crowded { 1 } else { np as usize };
     for j in 0..n {
         // (every other request has a one-byte payload >= 0x80 - the answer echoes it - e.g. a status code)
@@ -166,6 +188,15 @@ async fn run_wire(wt: &WireTalk, rep: &mut CaseReport) -> Option<(String, String
         w.step += 1;
         deliver_all(&mut w).await;
         held.extend(std::mem::take(&mut w.nodes[0].held_req));
+    }
+    if wt.own_request_times_out {
+        act(&mut w, &Op::Submit { from: 0, to: 1, body: Body::Ping, with_record: true });
+        w.settle().await;
+        w.step += 1;
+        w.pool.clear();
+        crate::engines::wire_interp::advance(&mut w, std::time::Duration::from_millis(crate::engines::wire::REQUEST_TIMEOUT_MS * 5 / 2)).await;
+        w.pool.clear();
+        rep.class("wire-companion/own-request-to-the-requester-timed-out-in-between");
     }
     // (a crowded cache has no room for the extra session of interlude 1: that would evict the
     // requester's session by the LRU rule itself, and an answer needs that session)
@@ -559,14 +590,14 @@ impl Property for C20 {
         let step_cases = (prop_oneof![5 => Just(true), 1 => Just(false)], proptest::collection::vec(step, 1..20), any::<bool>(), 0u8..16, 0u8..16, prop_oneof![3 => Just(false), 1 => Just(true)])
             .prop_map(|(register_events, steps, respond_after_shutdown, known, moved, dual)| Case { register_events, steps, respond_after_shutdown, known, moved, dual, wire: None });
         let svc = step_cases;
-        let companion = (prop_oneof![2 => 1u8..31, 3 => 31u8..=90], any::<bool>(), any::<bool>(), prop_oneof![2 => Just(false), 1 => Just(true)], prop_oneof![2 => Just(false), 1 => Just(true)], prop_oneof![2 => Just(0u8), 1 => Just(1u8), 1 => Just(2u8)], prop_oneof![3 => Just(false), 1 => Just(true)]).prop_map(|(n_req, two_peers, newest_first, ban_before_answer, nat, interlude, crowded)| Case {
+        let companion = (prop_oneof![2 => 1u8..31, 3 => 31u8..=90], any::<bool>(), any::<bool>(), prop_oneof![2 => Just(false), 1 => Just(true)], prop_oneof![2 => Just(false), 1 => Just(true)], prop_oneof![2 => Just(0u8), 1 => Just(1u8), 1 => Just(2u8)], prop_oneof![3 => Just(false), 1 => Just(true)], prop_oneof![3 => Just(false), 1 => Just(true)], prop_oneof![3 => Just(false), 1 => Just(true)]).prop_map(|(n_req, two_peers, newest_first, ban_before_answer, nat, interlude, crowded, rekeyed, own_request_times_out)| Case {
             register_events: true,
             steps: vec![],
             respond_after_shutdown: false,
             known: 0,
             moved: 0,
             dual: false,
-            wire: Some(WireTalk { n_req, two_peers, newest_first, ban_before_answer, nat: nat && !crowded, interlude: if crowded { 0 } else { interlude }, crowded }),
+            wire: Some(WireTalk { n_req, two_peers, newest_first, ban_before_answer, nat: nat && !crowded, interlude: if crowded { 0 } else { interlude }, crowded, rekeyed: rekeyed && !nat, own_request_times_out }),
         });
         prop_oneof![150 => svc, 1 => companion].boxed()
     }
